@@ -9,6 +9,9 @@ for a in sys.argv:
     if a.startswith('--tmo='):
         tmo = int(a.split('=')[1])
 load_all()
+import faulthandler
+if os.environ.get("FH"):
+    faulthandler.dump_traceback_later(int(os.environ["FH"]), repeat=True)
 q = [x for x in REG.contracts if sys.argv[1] in x and not REG.contracts[x].trusted][0]
 slow = float(os.environ.get('SLOW', '1'))
 
